@@ -1,7 +1,7 @@
 (* C17 -- GC only touches eligible files and runs at most once per bucket.
    Property theorems only; proofs live in proofs/GcRangeProofs.v, GcTouch.v, GcReqProofs.v. *)
 From Coq Require Import NArith ZArith List Bool String.
-From GB Require Import Consts Words Hash Compress Bucket BucketOpen Gc GcReq CheckL2 RefMap Refine GcRangeProofs GcTouch GcReqProofs GcView GcMerge.
+From GB Require Import Consts Words Hash Compress Bucket BucketOpen Gc GcReq CheckL2 RefMap Refine GcRangeProofs GcTouch GcReqProofs CollideProofs GcView GcMerge.
 Import ListNotations.
 Open Scope N_scope.
 
@@ -54,6 +54,34 @@ Theorem C17_touches_only_range : forall (cf : cfg) (hf : bytes -> N) (K : list b
   untouched (fun c => (dst0 <= c <= end_)%nat) b (fst (gc_pass cf hf b begin_ end_ merge)).
 Proof. exact gc_pass_touches_range_any. Qed.
 Print Assumptions C17_touches_only_range.
+
+
+(* (3c) REFUTED without the precondition "no record extends past DataFileMax" (clause 2 of GPre): known finding F24.
+   The configuration accepts a value that alone is larger than a data file (DataFileMax 1024, BodyMax 2048).  The
+   record of key "B" (1280 bytes) sits alone in file 1; a pass over [1,2] below the head file 3 cannot place it in
+   any destination, not even the emptied file 1 (gc.go asks `recsize + writingHead > DataFileMax` also when
+   writingHead = 0), so the destination runs ahead of the source: the pass appends to the file RECEIVING APPENDS (3)
+   and creates files 4 and 5 above it.  The implementation does exactly this (corpus/C17/F24.json, same directory
+   listing); a later client write that rotates into file 4 ends the process (findings/F24_abort.json). *)
+Definition f24_lc : l2cfg := mkL2 (mkCfg 1024 2048 1048576 false 3 false 1) [] 0.
+Definition f24_ops : list l2op := [OSet "50" "c45d6f5563562e4d9106e1ef3b0e56fbe39bff2b8250a79c26bb116da1ad239f317d4efa91888c652ffd4e49a6f56543f384737c2b4585a075c8699cce22f0b9a6805edeae7fbe111de6a0e0e52d1329a7d1c0fed1ca71909bbe964aac20088607d6ccc99588e6c3bea304cb09f6ec225676406de4445918392a1a780cfa195daa9e355d384828fe9c82e8ebc1d24fae29614e5c43e1ae9076457f339d798aec20606dc0f3aee94f175856617306778d9df37aa8877995f2900f7bb09670ba74c9aa262bb7e3e7b6e5f1d3791137530f9a23b8646db6483a6d81bd508ee593539148c308267bf7027ef8f84775b33139af5b7467af59d77682f3c31fefba9d65f07d54018f46257de7a1625700bdf3164152af8ed8603f76de9766f4746f89de4d763b8d390540b7d34801b6" 0 0 1 (mkZ true 309 309);
+  OSet "42" "5fd2944684256a33dd9a4ba53177cf7a52fe3a10308dd5def03290badec8c7514a9830f0044808e21082245c92cc57bf3e803db6a781b4ab4a79434975d7c4d035da83cd199dcb69c13b8d4261eca6500d6f57a22a5631767464b3e17ce27bf79667ce001aa6464160cc546b91389bb3f180a32943a81ed2e9dce8a047499717c624c9c4d93551790d858d5b374f2140970b6728f82b76d05189d98dbc3e3b1b4cbf9150eef44a3bbe8610a85588a0ee54f0cb3093050c8526ef5f642f77460d530ae52dbe11614e390621030bcda1ba38bd50d50c3679d8051b87a9a64a2e5bdd6163688fc5951bc678cde6b5c2fecc43b384ee588c5550c93d96a822e2ab4ae93bc42ea52ef8dee04aba28d49f95bf22975513d8d214226b84a2b46852158235a19af65013ad0357849958f2cd892bf0657999a68030de63b8cc402f38773ec886767a4c017287560540cbd5b2da3ea3e6e58b289f20ff39897095c592b5991d98f90840894adb14185f96e24949cb0e18e0fcf3a0462cdf183bb9d1c7c94ffd420a3b36fdae80843f613a965e0aa2dba3184bfdea9d560e09bf849783e3912dfb98f95dd5c9d33cfa651320a089cbfb83b9fb70628b84da7af7dfbc682f4edef95515cd8995b3c00a90ac3804af191417f887b2e72678ed87776f26f3e72a7516ee5b24f48debbd2b095e99c16dfdb8356063089b7d71ed50fa09b6cd53c2cdee2a8dee88b049fdef8ca9a6e81b8696cb01863dd2d3dd283a88943c2b45de0ebbbd728356e949d4e4f69d58708f0695d68de20a67052856b1a80e9aa1b3a4e36b04816ffc7d39d7f646d281b682dc601a7ec1340259c3e2ab1b1ae057e47261df0d77a6fc5cb9e9c3ce3bb53c95027c8761c88797941b1c3d865bf2741875c2ee57e02cd09e2995bc98ddba41c8768d1cb8532983f67ac8db2b0d365e552b1fe0e1b62cb0e7dd76d42e75e696633f99dc2db690292a5145f90ff8c1d706e30ebc89ce40308f759f634a4abcebcd47c75d7696179f2b3f04f152b1ff449fbb8f8b80923ad6424094d714cc23880a686149514a45d1d7e62841d13c4381e8b0594de05a1846aa0529e36ab12d17cce251b2cdc160ab7edb8ee3961e3ff2739db6dbd1a1fa05c1aa701d35a6c12dd61e76800ceffa2b75d41a2b847d17eb46ef7f77af660251d3de868938455bb35d6c1205da2d5909e6e5b33ac1251f684c202aa07721c2c38d8f23c016c62b23df072837f45ab0858586cbe22de2710c080a84e801644bf82dfc7894aaf00e1826ffd217e4a3bcd990b37d1bba31a635f9fbb664655904736ac1802a3ef200c734a9b8faf6fd9c4e1fa793b5dbb68a801b637676469d3a45eaf73a62fc9f35a619db69a7e46cf4cce5eea9a41a57d40a9f8dcc24805865acbf4f2f265e7208ad51e9501ac4f2e7fea5b5eb654cc9209d37bcfc12d090d74098e43f3bc291079e1f531b1ceb161125d8946acc64e3876bebfcda1a6583d521de76e3be0fd9dd69c654ee7f74c992ea7fa1fc965b3593113104395306598f0bd08bba230bca" 0 0 2 (mkZ true 1109 1109);
+  OSet "63" "33220fa6dd9532dc9e46" 0 0 3 (mkZ true 17 17);
+  OSet "64" "76ffede1a48f26eba9e4cf4d8292d01ad441364ecdc5bdb7d0f1dfaeb531c1ae736856b30c4e6ffd2ad8a2208da10eeacec2fd417ed0d7a6b55357070a03fa7ab574be753fb847066751b5a82e14c5d30f8330fbcfcb1f12625611c02af728cdecf116deb50acabadfa9fa07cbcdfd81f60d3a4fb62025fb91fb615c1ecefc23f67730f02f34d041842ce318d07daa804672d6b9363a36d73428e0aa824eea7819abebaeddcc59b058b5af7d75d1bc33ff13559e7081ae1f9a74a0742bf8df736446b8096dd8c612fdd12c94d99ffe97ea52b04519f215408e3b4dd1f208e2965bdca67ff7b165a3ceb884f926162b20f32890478866cdd6a696569899d7efab4091f441f8d01792f947ed831946d9574a2aee7177fc7cff21fcef0e0eacac4f824fe90f19a0453b4e7a07e1" 0 0 4 (mkZ true 309 309);
+  OFlush;
+  ORestart (mkRm false [] false);
+  OSet "65" "83a59357e55996c36b9fd1eb802b3c7941acbf85a52c8ebc32d049343aee57f901186b047a60eb8a0f988bcb551f1001a58fc7c140da44596ee1dda70460bcc1f10e082080e6f5454998a2aad27daa579ae2bdd45a8bc888d325e5cf26e0a194aa2adc760229d5d80e7d7aea14d102ce38c59d882220928432653cad514f017ac8506ff87db617b0a83abe044eda8064295b9dbf1c7725cd601ddbb376e31bcf8dab67fa39466c353d168c5c9a5c22db62a781002a251df67347e809fccac3d5e9fd3bcf72b44f8372c1e6ec172e3e857f0f4c2241e40f2bda200d84bd1cb5f85afa677f1f19ec92f64bb17eaa8b4a360cb5d9fcf780632dee07695f64f48e4df027a53bcddb08828ae9ecac99882c9936ca4f0c304a65c843f7899ac697f69468287bacd9f90df660f6527d" 0 0 5 (mkZ true 309 309);
+  OFlush].
+
+Theorem C17_oversize_record_refuted :
+  exists b, run_b f24_lc bucket0 f24_ops = Some b /\ b_head b = 3%nat /\
+    model_data b = [(0, 512, [(0, unhex "50", 1%Z)]); (1, 1280, [(0, unhex "42", 1%Z)]);
+                    (2, 768, [(0, unhex "63", 1%Z); (256, unhex "64", 1%Z)]); (3, 512, [(0, unhex "65", 1%Z)])] /\
+    model_data (fst (gc_pass (l_cfg f24_lc) (forced_hash []) b 1 2 false)) =
+                   [(0, 512, [(0, unhex "50", 1%Z)]); (3, 768, [(0, unhex "65", 1%Z); (512, unhex "63", 1%Z)]);
+                    (4, 512, [(0, unhex "64", 1%Z)]); (5, 1280, [(0, unhex "42", 1%Z)])].
+Proof. eexists. split; [vm_compute; reflexivity|]. split; [vm_compute; reflexivity|]. split; vm_compute; reflexivity. Qed.
+Print Assumptions C17_oversize_record_refuted.
 
 (* (4) At most one pass per bucket, for ALL numbers of requests, ALL target buckets and ALL schedules of the
    request protocol (check under read lock / reserve / pass start / pass end as separate atomic steps). *)
